@@ -156,7 +156,7 @@ def run_one(mod, case):
         with warnings.catch_warnings():
             warnings.simplefilter("ignore")
             out = mod.run(case, rec)
-        if out is not None:
+        if isinstance(out, Rec):
             rec = out
     except Exception as exc:  # noqa: BLE001
         rec.ok = False
